@@ -113,10 +113,10 @@ def jobs(pid, tier):
         OKK = r'(coawait|runfn|runfnbig|detached|detachedbig|current)'
         LOST = r'(coawaitfut|runasync|resumesp)'
         if q:
-            return [vrt('C11', [rf'pool_w[12]_{OKK}_(stop|dtor|selfstop|racestop)', r'pool_w2_dependent_.*', r'pool_w[12]_live_.*', r'pool_w[12]_selfdestroy.*'], bound=2, workers=2),
+            return [vrt('C11', [rf'pool_w[12]_{OKK}_(stop|dtor|selfstop|racestop)', r'pool_w2_dependent_.*', r'pool_w[12]_live_.*', r'pool_w[12]_selfdestroy.*', r'pool_w1_addworker_.*', r'pool_w2_addworker_j[01]_stop'], bound=2, workers=2),
                     vrt('C11', [rf'pool_w1_{OKK}-{OKK}_(stop|dtor|selfstop)', r'pool_w2_(coawait-runfn|coawait-detachedbig|runfnbig-detached|coawait-coawait)_(stop|selfstop)', r'pool_w1_(coawait-runfn|detached-detachedbig)_racestop', r'pool3_w1_coawait-runfn-detached_(stop|racestop)'], bound=2, workers=4),
                     vrt('C11', [rf'pool_w1_{LOST}_(stop|dtor)'], bound=2, workers=2, max_viol=10000000)]
-        return [vrt('C11', [rf'pool_w[123]_{OKK}_(stop|dtor|selfstop|racestop)', r'pool_w[23]_dependent_.*', r'pool_w[12]_live_.*', r'pool_w[12]_selfdestroy.*'], bound=3, workers=2),
+        return [vrt('C11', [rf'pool_w[123]_{OKK}_(stop|dtor|selfstop|racestop)', r'pool_w[23]_dependent_.*', r'pool_w[12]_live_.*', r'pool_w[12]_selfdestroy.*', r'pool_w[12]_addworker_.*'], bound=3, workers=2),
                 vrt('C11', [rf'pool_w[12]_{OKK}-{OKK}_(stop|dtor|selfstop|racestop)'], bound=3, workers=8),
                 vrt('C11', [rf'pool_w3_{OKK}-{OKK}_(stop|selfstop)'], bound=1, workers=8),
                 vrt('C11', [r'pool3_w[12]_.*'], bound=2, workers=8), vrt('C11', [r'pool3_w3_.*'], bound=1, workers=8),
